@@ -246,7 +246,7 @@ def finalize(ctx: Ctx, tier: str, seed: int, t0: float, level_text: str,
         pass
     # what the loader rewrote before anything was analysed (DESIGN 9.10 ff.): the counts of this run, per module
     NORMALISATIONS = ('matches_desugared', 'casts_dropped', 'calls_to_comps', 'empty_subclasses', 'identity_conversions', 'chains_split',
-                      'assertion_raises', 'trivial_methods', 'negations_folded', 'none_fields_folded', 'condition_generators', 'records_scalarized', 'record_methods', 'reraise_handlers', 'flags_from_try', 'sentinel_lookups', 'cm_aliases', 'constant_choices', 'two_valued_props', 'seams_inlined', 'two_valued',
+                      'assertion_raises', 'trivial_methods', 'negations_folded', 'call_spellings', 'none_fields_folded', 'condition_generators', 'records_scalarized', 'record_methods', 'reraise_handlers', 'flags_from_try', 'sentinel_lookups', 'cm_aliases', 'constant_choices', 'two_valued_props', 'seams_inlined', 'two_valued',
                       'nt_rewrites', 'tuple_splits', 'deobjectified', 'loops_to_comps', 'loops_to_map', 'renamed_defs', 'nested_helpers',
                       'projected', 'annotations_dropped', 'drains', 'exception_tuples', 'folded_defaults', 'module_partials',
                       'constants_inlined', 'forward_substituted', 'alias_rewrites')
